@@ -17,9 +17,20 @@ pub fn handle(line: &str) -> String {
         Ok(c) => c,
         Err(_) => return json!({"error": "curve"}).to_string(),
     };
-    let Some(def) = parser::parse_definition(src) else {
+    let Some(mut def) = parser::parse_definition(src) else {
         return json!({"error": "parse"}).to_string();
     };
+    if req["dump"].as_bool().unwrap_or(false) {
+        // give every node a file id so that the reports carry their locations (as in `taint`)
+        use program_structure::ast::{Definition, FillMeta};
+        let mut elem = 0;
+        match &mut def {
+            Definition::Template { body, .. } | Definition::Function { body, .. } => body.fill(0, &mut elem),
+        }
+    }
+    // pass budgets (hook H2), as in `lift`: the number of passes each propagation loop may perform
+    program_structure::cfg::verif::VALUE_PASSES.with(|b| b.set(req["value_passes"].as_u64().map(|x| x as usize)));
+    program_structure::cfg::verif::DEGREE_PASSES.with(|b| b.set(req["degree_passes"].as_u64().map(|x| x as usize)));
     let mut reports = ReportCollection::new();
     let cfg = match def.into_cfg(&curve, &mut reports) {
         Ok(c) => c,
